@@ -96,9 +96,12 @@ def filter_table():
     if _FILTERS:
         return _FILTERS
     c = mockrepo.fresh()
+    # every instance shape of the repository: referenced through two roles
+    # (VA k=1, k=2; VX x2), through one role by several / one association
+    # (VB k=3; VX x1, x4)
     srcs = [_ipath("VA", NS1, k=1), _ipath("VA", NS1, k=2),
-            _ipath("VB", NS1, k=3), _ipath("VB", NS1, k=4)] + \
-        [_ipath("VX", NS1, name="x%d" % i, n=i) for i in (1, 2, 3, 4)]
+            _ipath("VB", NS1, k=3)] + \
+        [_ipath("VX", NS1, name="x%d" % i, n=i) for i in (1, 2, 4)]
     for fam, op in (("ref", "ReferenceNames"), ("assoc", "AssociatorNames")):
         for src in srcs:
             try:
